@@ -6,6 +6,7 @@ import (
 	"encoding/json"
 	"fmt"
 	"math/big"
+	"os"
 	"sort"
 	"strings"
 
@@ -288,6 +289,9 @@ func RunLedger(opt LedgerOptions) (*Result, error) {
 	seen := map[string]bool{}
 	for c := 0; c < opt.Histories; c++ {
 		r := root.Fork()
+		if only := os.Getenv("LEDGER_ONLY"); only != "" && only != fmt.Sprint(c) {
+			continue // replay aid: every case has its own fork of the generator state
+		}
 		hl := &HistoryLog{}
 		p := paramsFor(r, opt.Seed*1000+uint64(c))
 		w := NewWorld(p)
@@ -544,9 +548,14 @@ func wrappedAllowance(prev, cur map[string]string, txs [][]byte, codes []uint32)
 			continue
 		}
 		w := string(x.t.Witnesses[rf.VoteIndex])
-		if w != string(rf.ValidatorAddress) || x.yes[w] || x.no[w] {
+		if w != string(rf.ValidatorAddress) {
 			continue
 		}
+		// an accepted report of a witness at its own index counts once per side. A witness whose
+		// recorded vote is on the other side is refused by the handler (code 1), so it is not
+		// here; the one accepted case is a vote that was never recorded (the crossing failure
+		// report of an ERC20 lock is dropped with the unsaved tracker), after which the witness's
+		// next report is its vote
 		if rf.Success {
 			x.yes[w] = true
 		} else {
